@@ -67,7 +67,11 @@ def system(draw, max_moltypes=3, max_res=8, max_total_mol=6, allow_vs=True, sing
                   "eps": draw(st.sampled_from([0.5, 2.0, 4.5]))} for i in range(ntypes)]
     types = [a["name"] for a in atomtypes]
     nresdef = draw(st.integers(1, 4))
-    resdefs = [draw(residue(RESNAMES[i], types, allow_vs=allow_vs)) for i in range(nresdef)]
+    # residue names that readers may treat specially (water) are ordinary names for polyply
+    pool = list(RESNAMES)
+    if draw(st.integers(0, 4)) == 0:
+        pool[draw(st.integers(0, nresdef - 1))] = "SOL"
+    resdefs = [draw(residue(pool[i], types, allow_vs=allow_vs)) for i in range(nresdef)]
     if variants and draw(st.integers(0, 2)) == 0:
         # a second residue with the name of an existing one but other atoms (e.g. an end group that keeps the
         # name of the repeat unit): same name, another template and size
